@@ -197,9 +197,10 @@ class Contract:
 
 
 class LoopContract:
-    def __init__(self, qname, ordinal, invariant, modifies=(), decreases=None, name=None, keep=()):
+    def __init__(self, qname, ordinal, invariant, modifies=(), decreases=None, name=None, keep=(), keep_keys=()):
+        self.keep_keys = list(keep_keys)
         self.qname = qname; self.ordinal = ordinal; self.invariant = invariant; self.modifies = list(modifies)
-        self.decreases = decreases; self.name = name or ('loop%d' % ordinal); self.keep = set(keep)
+        self.decreases = decreases; self.name = name or ('loop%s' % ordinal); self.keep = set(keep)
 
     def modified_locals(self, eng, nodes, st):
         """decl ids of locals (live at loop entry) that the loop may modify: every non-const use that is not a plain read"""
@@ -225,12 +226,12 @@ class LoopContract:
         return mod
 
     def apply(self, eng, n, st, fr, cond, inc, body, pre_test, bind, range_info):
-        lname = '%s/loop%d' % (fr.qname, self.ordinal)
+        lname = '%s/loop%s' % (fr.qname, self.ordinal)
         entry = st.clone()
         L = LoopCtx(eng, st, entry, fr, range_info)
         # 1. invariant holds on entry
         for (nm, g) in self.invariant(L):
-            eng.obligations.append(Obligation('inv-init[%d]:%s' % (self.ordinal, nm), st.pc, g, 'loop', eng.where(n, fr), info={'fn': fr.qname}))
+            eng.obligations.append(Obligation('inv-init[%s]:%s' % (self.ordinal, nm), st.pc, g, 'loop', eng.where(n, fr), info={'fn': fr.qname}))
         # 2. havoc
         nodes = [x for x in (cond, inc, body) if isinstance(x, dict)]
         mod = self.modified_locals(eng, nodes, st)
@@ -242,8 +243,11 @@ class LoopContract:
             st.env[vid] = self.havoc_value(eng, v, eng.var_names.get(vid, 'v'))
         for key in self.modifies:
             if key == '*':
-                eng.havoc_all(st); continue
-            old = eng.harr(st, key, None)
+                kept = {k: eng.harr(st, k, z3.ArraySort(I, eng.key_sort(k))) for k in self.keep_keys}
+                eng.havoc_all(st)
+                for k, a_ in kept.items(): st.heap[k] = a_
+                continue
+            old = eng.harr(st, key, z3.ArraySort(I, eng.key_sort(key)))
             st.heap[key] = eng.fresh(key + '!h', old.sort())
         head = st.clone()
         L = LoopCtx(eng, st, entry, fr, range_info)
@@ -270,10 +274,10 @@ class LoopContract:
                     else: eng.ev(inc, s2, fr)
                 L2 = LoopCtx(eng, s2, entry, fr, range_info)
                 for (nm, g) in self.invariant(L2):
-                    eng.obligations.append(Obligation('inv-step[%d]:%s' % (self.ordinal, nm), s2.pc, g, 'loop', eng.where(n, fr), info={'fn': fr.qname}))
+                    eng.obligations.append(Obligation('inv-step[%s]:%s' % (self.ordinal, nm), s2.pc, g, 'loop', eng.where(n, fr), info={'fn': fr.qname}))
                 if var0 is not None:
                     v1 = self.decreases(L2)
-                    eng.obligations.append(Obligation('decreases[%d]' % self.ordinal, s2.pc, z3.And(v1 < var0, var0 >= 0), 'loop', eng.where(n, fr), info={'fn': fr.qname}))
+                    eng.obligations.append(Obligation('decreases[%s]' % self.ordinal, s2.pc, z3.And(v1 < var0, var0 >= 0), 'loop', eng.where(n, fr), info={'fn': fr.qname}))
                 self.check_frame(eng, head, s2, n, fr)
             elif o[0] == 'break':
                 self.check_frame(eng, head, s2, n, fr)
@@ -294,13 +298,18 @@ class LoopContract:
         raise Unsupported('havoc of %r' % (v,))
 
     def check_frame(self, eng, head, s2, n, fr):
-        if '*' in self.modifies: return
+        if '*' in self.modifies:
+            for key in self.keep_keys:
+                h = head.heap.get(key); arr = s2.heap.get(key)
+                if h is None or arr is None or h is arr or h.eq(arr): continue
+                eng.obligations.append(Obligation('loop-frame[%s]:%s' % (self.ordinal, key), s2.pc, arr == h, 'frame', eng.where(n, fr), info={'fn': fr.qname}))
+            return
         for key, arr in s2.heap.items():
             if key in self.modifies: continue
             h = head.heap.get(key)
             if h is None: h = eng.base_arrays.get(key)
             if h is None or h is arr or h.eq(arr): continue
-            eng.obligations.append(Obligation('loop-frame[%d]:%s' % (self.ordinal, key), s2.pc, arr == h, 'frame', eng.where(n, fr), info={'fn': fr.qname}))
+            eng.obligations.append(Obligation('loop-frame[%s]:%s' % (self.ordinal, key), s2.pc, arr == h, 'frame', eng.where(n, fr), info={'fn': fr.qname}))
 
 
 class LoopCtx:
@@ -489,6 +498,13 @@ def run_loop_slice(eng, contract, d, st, fr, result):
             C0 = Ctx(eng, d, result.get('args', {}), fr.this, result['slice_pre'])
             for (nm, g) in contract.pre(C0): st.pc.append(g)
             result['slice_pre'] = st.clone()
+        if contract.prefix_loop is not None:
+            eng.stop_at_loop = (d['id'], contract.prefix_loop); eng.stopped_states = []
+            try:
+                outs0 = eng.exec_stmt(body, st, fr)
+            finally:
+                eng.stop_at_loop = None
+            return [(s_, ('loop-entry',)) for s_ in eng.stopped_states] + [(s_, o_) for (s_, o_) in outs0 if o_ is not None and o_[0] in ('throw', 'continue', 'break', 'ret')]
         return eng.exec_stmt(body, st, fr)
     finally:
         eng.lazy_locals = False
@@ -551,7 +567,7 @@ def check_function(eng, contract, result):
         if contract.slice_loop is not None:
             outs = run_loop_slice(eng, contract, d, st, fr, result)
             pre_state = result['slice_pre']
-        elif contract.prefix_loop is not None:
+        elif contract.prefix_loop is not None and contract.slice_loop is None:
             eng.stop_at_loop = (d['id'], contract.prefix_loop); eng.stopped_states = []
             try:
                 if d['kind'] == 'CXXConstructorDecl': eng.run_ctor_inits(d, this, st, fr)
